@@ -611,6 +611,12 @@ std::vector<float> MatrixCreator::solve(float tolerance, int maxIterations) {
   solver.setTolerance(tolerance);
   solver.setMaxIterations(maxIterations);
   Eigen::Matrix<float, -1, 1> res = solver.solveWithGuess(rhs, initial);
+  if (!res.allFinite()) {
+    // The system is singular when no net reaches a fixed pin; conjugate
+    // gradients may then break down and return infinities or NaNs. Keep the
+    // initial guess rather than propagating them to the placement.
+    res = initial;
+  }
   // Copy to a std::vector and remove the fake cells
   std::vector<float> ret;
   ret.resize(matSize());
